@@ -202,10 +202,14 @@ def run_main(ctx):
         desc["api"] = api
         try:
             before = U.wfn_dict(w)
+            wrapper = case % 3 == 0          # every third case goes through the module-level wrappers of fqe
+            if wrapper:
+                ctx.count("via-module-wrapper")
             if api == "time_evolve":
-                out = w.time_evolve(t, ham)
+                out = fqe.time_evolve(w, t, ham) if wrapper else w.time_evolve(t, ham)
             elif api == "agu-taylor":
-                out = w.apply_generated_unitary(t, "taylor", ham, accuracy=1e-12, expansion=60)
+                out = fqe.apply_generated_unitary(w, t, "taylor", ham, accuracy=1e-12, expansion=60) if wrapper else \
+                    w.apply_generated_unitary(t, "taylor", ham, accuracy=1e-12, expansion=60)
             else:
                 ev = numpy.linalg.eigvalsh(H)
                 out = w.apply_generated_unitary(t, "chebyshev", ham, accuracy=1e-12, expansion=80,
